@@ -3,7 +3,7 @@ every run; Proofs/PauseCert.v re-establishes the finite certificate for it and P
 lifts it to every request sequence. End-to-end: SIGTSTP / SIGCONT (and shutdown, info) delivered to
 a real nextest; the closed-loop model simulation and the oracle are compared with what happened."""
 import json, os
-import vlib, e2e, units_e2e as U
+import vlib, e2e, units_e2e as U, gen_tie
 
 PROP = "C12"
 
@@ -133,6 +133,9 @@ def run(tier, seed):
     # second translator and proved equal to the model's (one response tagged with the loop's state; the job-control
     # arms mean what the pause table means)
     U.arms_gate(chk, PROP, gate)
+    # glue code (DESIGN 11.7, third round): DispatcherContext::broadcast_request (through which Stop / Continue reach the
+    # units) visits every running unit and skips closed channels, read from the source
+    gen_tie.gate(chk, ['broadcast_request'], gate, family="glue")
     try:
         rig = e2e.Rig()
     except RuntimeError as ex:
